@@ -224,7 +224,8 @@ CLAIMED = {
  "C19": dict(
     category="translation_validation",
     text="ELF loading is modelled definitionally in Lean from a structured description of the file (what goblin hands to falcon); "
-         "theorems show the model is what the property states (image_exact, perm_bits, arch_named, entries_exact, rebase_uniform, fits_ok, "
+         "theorems show the model is what the property states (image_exact, perm_bits, arch_named, entries_exact, rebase_uniform, fits_ok, link_once_additive_partial "
+         "(every R_386_RELATIVE word = file word + base of its own placement, added exactly once), "
          "and link_once over ALL histories of linker calls: every symbol-naming relocated word - x86 R_386_32/GLOB_DAT/JMP_SLOT and the "
          "MIPS o32 global GOT - holds the once-rebased address of the first placement exporting the symbol, and no later load_elf call "
          "touches a byte of an earlier object). The real loader::Elf / ElfLinker, including histories of the public load_elf, are compared "
@@ -254,9 +255,9 @@ CLAIMED = {
     technique="Lean 4 mirror of the lifter + class theorems over all words, addresses and states; executable differential"),
  "C01": dict(
     category="proof",
-    text="53 Lean theorems. Instruction level (64-bit mode): for mov/add/sub/cmp/and/or/xor in all five operand forms (r,r / r,imm / "
+    text="59 Lean theorems. Instruction level (64-bit mode): for mov/add/sub/cmp/and/or/xor in all five operand forms (r,r / r,imm / "
          "r,[mem] / [mem],r / [mem],imm), lea, inc/dec/neg/not, setcc r8, cmovcc r,r and jcc rel (14 flag-only condition codes; the "
-         "not-taken 32-bit cmov still zero-extends), test r,r / r,imm, xchg r,r, movzx/movsx/movsxd r,r, push r64, pop r64, ret and call rel32 - all registers and operand sizes including high-byte registers "
+         "not-taken 32-bit cmov still zero-extends), test r,r / r,imm, xchg r,r, movzx/movsx/movsxd r,r, push r64 / push imm, pop r64, leave, ret, ret imm16 (immediate zero-extended), call rel32 and call r64 (target read before the push) - all registers and operand sizes including high-byte registers "
          "(aliasing included), any base/index/scale/displacement, all addresses and every state with a mapped, non-wrapping access - "
          "running the IL of a Lean mirror of the lifter (including mode.rs operand_value/load/store; compared syntactically with falcon's "
          "real output on every generated case of these classes) yields all sixteen registers, CF ZF SF OF, memory and next pc of a Lean "
